@@ -135,6 +135,11 @@ func main() {
 		}
 		m1 := monoid.From[int](e, semigroup.From[int](op(code)))
 		emit(Case{Kind: "monfrom", Code: code, A: []int64{int64(a)}, B: []int64{int64(b)}, E: int64(e), Obs: []int64{int64(m1.Empty()), int64(m1.Combine(a, b)), int64(m1.Combine(b, a))}})
+		// a monoid is a semigroup: re-basing one on another empty element keeps the operation, takes the given empty
+		m3 := monoid.From[int](e, monoid.FromOp[int](e+1+rng.Intn(3), op(code)))
+		emit(Case{Kind: "monfrom", Code: code, A: []int64{int64(a)}, B: []int64{int64(b)}, E: int64(e), Obs: []int64{int64(m3.Empty()), int64(m3.Combine(a, b)), int64(m3.Combine(b, a))}})
+		m4 := monoid.From[int](e, monoid.From[int](e-1-rng.Intn(3), semigroup.From[int](op(code))))
+		emit(Case{Kind: "monfrom", Code: code, A: []int64{int64(a)}, B: []int64{int64(b)}, E: int64(e), Obs: []int64{int64(m4.Empty()), int64(m4.Combine(a, b)), int64(m4.Combine(b, a))}})
 		m2 := monoid.FromOp[int](e, op(code))
 		emit(Case{Kind: "monfromop", Code: code, A: []int64{int64(a)}, B: []int64{int64(b)}, E: int64(e), Obs: []int64{int64(m2.Empty()), int64(m2.Combine(a, b)), int64(m2.Combine(b, a))}})
 	}
